@@ -52,9 +52,11 @@ namespace Ring
 /-- `MPT_queue_frag` -/
 def frag (r : Ring) : Bool := r.max - r.len < r.off
 
+/-- length of the first data part (`*low` of `mpt_queue_data`) -/
+def low (r : Ring) : Nat := min (r.max - r.off) r.len
+
 /-- `mpt_queue_data`: (index of the first part, its length `low`) -/
-def data (r : Ring) : Nat × Nat :=
-  if r.max - r.off < r.len then (r.off, r.max - r.off) else (r.off, r.len)
+def data (r : Ring) : Nat × Nat := (r.off, r.low)
 
 /-- `mpt_queue_empty`: `none` = NULL (queue full), else (start index, low, high) -/
 def empty (r : Ring) : Option (Nat × Nat × Nat) :=
@@ -63,49 +65,68 @@ def empty (r : Ring) : Option (Nat × Nat × Nat) :=
   else if space ≤ r.off then some (r.len - (r.max - r.off), space, 0)
   else some (r.off + r.len, space - r.off, r.off)
 
+/-- `mpt_queue_crop`, last step of the wrapped case: `post` bytes at `src` (second part) are pulled
+    to `base` (room for `low` bytes up to the storage end), the rest moves to the storage start -/
+def cropFill (s : List Byte) (base src post low : Nat) : Res (List Byte × Int) :=
+  if post ≤ low then
+    match Mem.mv s base src post with
+    | .ok s1 => .ok (s1, 1)
+    | _ => .oob
+  else
+    match Mem.mv s base src low with
+    | .ok s1 =>
+      match Mem.mv s1 0 (src + low) (post - low) with
+      | .ok s2 => .ok (s2, 3)
+      | _ => .oob
+    | _ => .oob
+
+/-- `mpt_queue_crop`, the `if (high)` block: data continues in the second part -/
+def cropWrapped (s : List Byte) (base low high n : Nat) : Res (List Byte × Int) :=
+  let post := low + high - n
+  if n < low then
+    -- keep the remaining data of the first part
+    match Mem.mv s base (base + n) (low - n) with
+    | .ok s1 => cropFill s1 (base + (low - n)) 0 (post - (low - n)) n
+    | _ => .oob
+  else cropFill s base (n - low) post low
+
+/-- `mpt_queue_crop`, linear data move -/
+def cropLinear (s : List Byte) (base low n : Nat) : Res (List Byte × Int) :=
+  let post := low - n
+  if post ≠ 0 then
+    match Mem.mv s base (base + n) post with
+    | .ok s1 => .ok (s1, 0)
+    | _ => .oob
+  else .ok (s, 0)
+
+/-- `mpt_queue_crop` after positioning: remove `n` bytes at `base`; `low` bytes follow up to the end
+    of the first part, `high` more in the second part -/
+def cropTail (s : List Byte) (base low high n : Nat) : Res (List Byte × Int) :=
+  if low + high < n then .err .BadArgument
+  else if high ≠ 0 then cropWrapped s base low high n
+  else cropLinear s base low n
+
 /-- `mpt_queue_crop`: new ring and the C return code (0,1,2,3) -/
 def crop (r : Ring) (pos len : Nat) : Res (Ring × Int) :=
-  let (base, low) := r.data
+  let low := r.low
   let high := r.len - low
   if pos = 0 then
     if len > low + high then .err .BadArgument
     else if len ≥ low then
-      let l := len - low
-      .ok ({ r with len := r.len - len, off := l }, if l ≠ 0 then 2 else 0)
+      .ok ({ r with len := r.len - len, off := len - low }, if len - low ≠ 0 then 2 else 0)
     else .ok ({ r with len := r.len - len, off := r.off + len }, 0)
   else
-    let sel : Option (Nat × Nat × Nat) :=
-      if pos < low then some (base + pos, low - pos, high)
-      else if pos - low > high then none
-      else some (pos - low, high - (pos - low), 0)
-    match sel with
-    | none => .err .BadArgument
-    | some (base, low, high) =>
-      let post := low + high
-      if post < len then .err .BadArgument
-      else
-        let post := post - len
-        if high ≠ 0 then do
-          -- keep the rest of the first part, then refill it from the wrapped part
-          let (s0, base, post, src, low) ←
-            if len < low then do
-              let s ← Mem.mv r.store base (base + len) (low - len)
-              pure (s, base + (low - len), post - (low - len), 0, len)
-            else (pure (r.store, base, post, len - low, low) : Res _)
-          if post ≤ low then do
-            let s1 ← Mem.mv s0 base src post
-            pure ({ r with store := s1, len := r.len - len }, 1)
-          else do
-            let s1 ← Mem.mv s0 base src low
-            let s2 ← Mem.mv s1 0 (src + low) (post - low)
-            pure ({ r with store := s2, len := r.len - len }, 3)
-        else if post ≠ 0 then do
-          let s1 ← Mem.mv r.store base (base + len) post
-          pure ({ r with store := s1, len := r.len - len }, 0)
-        else .ok ({ r with len := r.len - len }, 0)
+    let t :=
+      if pos < low then cropTail r.store (r.off + pos) (low - pos) high len
+      else if pos - low > high then .err .BadArgument
+      else cropTail r.store (pos - low) (high - (pos - low)) 0 len
+    match t with
+    | .ok (s, c) => .ok ({ r with store := s, len := r.len - len }, c)
+    | .err e => .err e
+    | .null => .null | .oob => .oob | .fault => .fault
 
 /-- the temporary `tmp` view used by `mpt_queue_get/set`: position `pos`, length `len`.
-    Returns (flag bit 1, low index, low length, high length) or the error -/
+    Returns (flag bit 1, index of the first part, its length, length of the second part) or the error -/
 def view (r : Ring) (pos len : Nat) (tooLong : Err) : Res (Int × Nat × Nat × Nat) :=
   let bit1 : Int := if pos ≠ 0 ∧ pos > r.max - r.off then 1 else 0
   let tmp : Res Ring :=
@@ -117,12 +138,24 @@ def view (r : Ring) (pos len : Nat) (tooLong : Err) : Res (Int × Nat × Nat × 
   match tmp with
   | .ok t =>
     if len > t.len then .err tooLong
-    else
-      let t := { t with len := len }
-      let (base, low) := t.data
-      .ok (bit1, base, low, len - low)
+    else .ok (bit1, t.off, min (t.max - t.off) len, len - min (t.max - t.off) len)
   | .err e => .err e
   | _ => .err .BadArgument
+
+/-- copy out `low` bytes at `base` and `high` bytes at the storage start -/
+def readParts (s : List Byte) (base low high : Nat) : Res (List Byte) :=
+  match (if low ≠ 0 then Mem.rd s base low else .ok []) with
+  | .ok a =>
+    match (if high ≠ 0 then Mem.rd s 0 high else .ok []) with
+    | .ok b => .ok (a ++ b)
+    | _ => .oob
+  | _ => .oob
+
+/-- store `src` into `low` bytes at `base` and `high` bytes at the storage start -/
+def writeParts (s : List Byte) (base low high : Nat) (src : List Byte) : Res (List Byte) :=
+  match (if low ≠ 0 then Mem.wr s base (src.take low) else .ok s) with
+  | .ok s1 => if high ≠ 0 then Mem.wr s1 0 ((src.drop low).take high) else .ok s1
+  | _ => .oob
 
 /-- `mpt_queue_get(queue, pos, len, data)`; `dst = false` models `data == NULL` -/
 def get (r : Ring) (pos len : Nat) (dst : Bool) : Res (Int × List Byte) :=
@@ -130,25 +163,27 @@ def get (r : Ring) (pos len : Nat) (dst : Bool) : Res (Int × List Byte) :=
   match r.view pos len .BadArgument with
   | .ok (bit1, base, low, high) =>
     if !dst then .ok (bit1 + (if high ≠ 0 then 2 else 0), [])
-    else do
-      let a ← if low ≠ 0 then Mem.rd r.store base low else pure []
-      let b ← if high ≠ 0 then Mem.rd r.store 0 high else pure []
-      pure (bit1 + (if high ≠ 0 then 2 else 0), a ++ b)
+    else
+      match readParts r.store base low high with
+      | .ok out => .ok (bit1 + (if high ≠ 0 then 2 else 0), out)
+      | _ => .oob
   | .err e => .err e
   | .null => .null | .oob => .oob | .fault => .fault
+
+/-- the bytes `mpt_queue_set` stores: `data` or zeros -/
+def setSrc (len : Nat) (bytes : Option (List Byte)) : List Byte :=
+  match bytes with
+  | some b => b.take len ++ List.replicate (len - b.length) 0
+  | none => List.replicate len 0
 
 /-- `mpt_queue_set(queue, pos, len, data)`; `bytes = none` models `data == NULL` (zero fill) -/
 def set (r : Ring) (pos len : Nat) (bytes : Option (List Byte)) : Res (Ring × Int) :=
   if len = 0 then .ok (r, 0) else
   match r.view pos len .MissingBuffer with
   | .ok (bit1, base, low, high) =>
-    let src : List Byte := match bytes with
-      | some b => b.take len ++ List.replicate (len - b.length) 0
-      | none => List.replicate len 0
-    do
-      let s1 ← if low ≠ 0 then Mem.wr r.store base (src.take low) else pure r.store
-      let s2 ← if high ≠ 0 then Mem.wr s1 0 ((src.drop low).take high) else pure s1
-      pure ({ r with store := s2 }, bit1 + (if high ≠ 0 then 2 else 0))
+    match writeParts r.store base low high (setSrc len bytes) with
+    | .ok s2 => .ok ({ r with store := s2 }, bit1 + (if high ≠ 0 then 2 else 0))
+    | _ => .oob
   | .err e => .err e
   | .null => .null | .oob => .oob | .fault => .fault
 
@@ -190,7 +225,8 @@ def qunshift (r : Ring) (len : Nat) (bytes : Option (List Byte)) : Res (Ring × 
 
 /-- `mpt_qpop(queue, len, data)`: removed bytes (as seen through the returned pointer) -/
 def qpop (r : Ring) (len : Nat) (dst : Bool) : Res (Ring × List Byte) :=
-  let (base, low) := r.data
+  let base := r.off
+  let low := r.low
   let high := r.len - low
   if high = 0 then
     if len > low then .null
@@ -212,7 +248,8 @@ def qpop (r : Ring) (len : Nat) (dst : Bool) : Res (Ring × List Byte) :=
 
 /-- `mpt_qshift(queue, len, data)` -/
 def qshift (r : Ring) (len : Nat) (dst : Bool) : Res (Ring × List Byte) :=
-  let (addr, low) := r.data
+  let addr := r.off
+  let low := r.low
   let outR : Res (List Byte) :=
     if len ≤ low then Mem.rd r.store addr len
     else if !dst then .null
